@@ -46,6 +46,8 @@ type shardResult struct {
 	failures []string
 }
 
+var labSummaries map[string]*labInfo
+
 var (
 	root    = "/verif"
 	repo    = "/repo"
@@ -177,7 +179,26 @@ func main() {
 	if len(units) == 0 {
 		fatal2x(exit, "no units to run for %s tier %s", id, *tier)
 	}
+	labs := map[string]*labInfo{}
 	for _, u := range units {
+		if u.Lab == nil {
+			continue
+		}
+		if _, ok := labs[u.Lab.Kind]; ok {
+			continue
+		}
+		info, err := buildLab(u.Lab.Kind, u.Lab.Programs[tierIdx], seed, tmp, "", u.Env)
+		if err != nil {
+			fatal2x(exit, "lab %s: %v", u.Lab.Kind, err)
+		}
+		labs[u.Lab.Kind] = info
+		bins["lab:"+u.Lab.Kind+"|false"] = info.Bin
+	}
+	labSummaries = labs
+	for _, u := range units {
+		if u.Lab != nil {
+			continue
+		}
 		key := u.Pkg + "|" + strconv.FormatBool(u.Race)
 		if _, ok := bins[key]; ok {
 			continue
@@ -236,10 +257,18 @@ func main() {
 				}
 			}()
 			bin := bins[j.u.Pkg+"|"+strconv.FormatBool(j.u.Race)]
+			if j.u.Lab != nil {
+				bin = bins["lab:"+j.u.Lab.Kind+"|false"]
+			}
 			results[i] = runShard(plan, j.u, j.shard, seed, bin, tmp, envExtra)
 		}(i, j)
 	}
 	wg.Wait()
+
+	// saved cases of lab properties: each embeds its program, so each gets its own one-program lab
+	if unitRe == nil {
+		results = append(results, regressLabs(plan, tmp)...)
+	}
 
 	// 3. merge
 	code := merge(plan, *tier, seed, results, time.Since(start))
@@ -314,6 +343,7 @@ func runShard(plan Plan, u Unit, shard int, seed int64, bin, tmp string, envExtr
 		"VERIF_PKG="+u.Pkg,
 		"VERIF_SCRATCH="+wd,
 		"VERIF_REPLAY_DIR="+filepath.Join(root, "replays", plan.ID),
+		"VERIF_PROPERTY="+plan.ID,
 	)
 	cmd.Env = append(cmd.Env, envExtra...)
 	cmd.Env = append(cmd.Env, u.Env...)
@@ -527,6 +557,18 @@ func merge(plan Plan, tier string, seed int64, results []shardResult, wall time.
 	}
 	if len(notes) > 0 {
 		coverage["notes"] = notes
+	}
+	if len(labSummaries) > 0 {
+		progs, usable := 0, 0
+		var skipped []map[string]string
+		for _, l := range labSummaries {
+			progs += l.Programs
+			usable += l.Usable
+			skipped = append(skipped, l.Skipped...)
+		}
+		coverage["programs"] = usable
+		coverage["programs_generated"] = progs
+		coverage["skipped_programs"] = skipped
 	}
 	if len(exhaustive) > 0 {
 		coverage["exhaustive_subspaces"] = exhaustive
